@@ -12,7 +12,7 @@
   exercised by the differential runs of harness/expdrv.c, not proved.  Known exceptions are reported by the check:
   entries of class `Leaks`, and results that depend on addresses (finding `address-tiebreak`).
 -/
-import CimbaModel.Experiment.Theorems
+import CimbaModel.Experiment.Progress
 import CimbaModel.Experiment.Isolation
 import CimbaModel.Experiment.Current
 import CimbaModel.Generated.TlsInventory
@@ -79,6 +79,20 @@ theorem join_blocks_until_done (p : Params) (s : State) (k : Nat) (hm : s.main =
 theorem no_deadlock (p : Params) (sched : List Actor) (hnr : (run code p sched).main ≠ .returned) :
     ∃ a, step code p (run code p sched) a ≠ run code p sched :=
   Experiment.no_deadlock code code_is_documented_dispenser p sched hnr
+
+/-- **Return.**  From every reachable state the experiment can be completed: some continuation of the schedule ends with the
+    main thread returned (and then `each_trial_once` applies). -/
+theorem can_always_return (p : Params) (sched : List Actor) :
+    ∃ ext, (run code p (sched ++ ext)).main = .returned :=
+  can_always_finish code code_is_documented_dispenser p _ sched (Nat.le_refl _)
+
+/-- ... and no schedule, however long, contains more than `4n + 4W + 2` steps that change the state: under any scheduler that
+    keeps choosing threads that can move (`no_deadlock` says one exists) the runner returns within that many steps. -/
+theorem effective_steps_bounded (p : Params) (sched : List Actor) :
+    effective code p (init code p) sched ≤ 4 * p.n + 4 * p.W + 2 := by
+  have h := effective_le_measure code code_is_documented_dispenser p sched _ (inv_init code code_is_documented_dispenser p)
+  rw [measure_init code code_is_documented_dispenser p] at h
+  omega
 
 /-- The theorems are not vacuous: with the fetch split into a separate load and store the same model runs a trial twice. -/
 theorem split_fetch_runs_a_trial_twice :
